@@ -13,6 +13,10 @@ pub const DEFAULT_PADDING_SCHEME: &str = r#"stop=8
 6=500-1000
 7=500-1000"#;
 
+/// Largest size a scheme entry may ask for: a padding record is one frame, and the
+/// length field of a frame is 16 bits wide
+const MAX_RECORD_PAYLOAD_SIZE: i64 = u16::MAX as i64;
+
 /// PaddingFactory generates padding sizes according to the scheme
 #[derive(Debug, Clone)]
 pub struct PaddingFactory {
@@ -113,6 +117,12 @@ impl PaddingFactory {
                 }
 
                 let (min_val, max_val) = (min_val.min(max_val), min_val.max(max_val));
+
+                // A size that does not fit one padding frame cannot be honoured: ignore
+                // the entry, like a non-positive one
+                if max_val > MAX_RECORD_PAYLOAD_SIZE {
+                    continue;
+                }
 
                 if min_val == max_val {
                     sizes.push(min_val as i32);
